@@ -35,8 +35,7 @@ def enclosing_stmt(n):
     return p
 
 
-def rule_boundary(ctx, py, tu):
-    R = "C04.BOUNDARY"
+def rule_boundary(ctx, py, tu, R="C04.BOUNDARY"):
     su = py.fn("librdengine.LibRDEngine.setup")
     body = [s for s in su.body]
     srcs = [pyfe.src(s) for s in body]
@@ -67,6 +66,9 @@ def rule_boundary(ctx, py, tu):
                 continue
             pt, payload, form = ffi.py_arg(a, f)
             pn = p.get("name")
+            if isinstance(payload, ast.Name):       # a table built into a local first
+                from .. import pysym
+                payload = pysym.inline(payload, f)
             if isinstance(payload, ast.Attribute) and payload.attr == "value":
                 cv = is_convert_value(payload)
                 ok = cv is not None and pyfe.src(cv[1]) == "units_system"
@@ -278,6 +280,9 @@ def run(ctx):
     rule_inherit(ctx, py)
     rule_owner(ctx, py)
     rule_state(ctx, py)
+    from . import c05, c12
+    c05.rule_ctor_label(ctx, ctx.py, "C04.CTOR")
+    c12.rule_unitstr(ctx, ctx.py, "C04.SERIAL")
     from .. import lints
     lints.run(ctx, "C04", ctx.py, ["units", "librdengine", "rdsystem", "coarsegrain", "value_processing"])
     ctx.assume("equality of the numbers after rounding is not decided; the dimensions assumed for the marshalled inputs "
